@@ -266,7 +266,12 @@ class C07Monitor:
                 self.inc("updates_raised")
                 self.inc(f"raised_exc.{r['exc']}")
                 self._untouched(world, i, why=f"update raised {r['exc']} (fault={kind})")
-                if op.get("null") and not kind:
+                if op.get("null") == "M0" and not kind:
+                    # an M* = 0 update under flow that is rejected (e.g. the C-type olivine
+                    # axis-aligned ZeroDivisionError, which belongs to C03) changes nothing:
+                    # counted, not judged
+                    self.inc("null_M0_update_rejected")
+                elif op.get("null") and not kind:
                     self.v("null_forcing", i, m, {"what": "null-forcing update raised",
                                                   "exc": r["exc"], "msg": r.get("msg"),
                                                   "null": op.get("null")})
